@@ -183,9 +183,15 @@ def mk_not(x):
     return ('not', x)
 
 
+def _is_int_const(x):
+    return isinstance(x, tuple) and len(x) == 2 and x[0] == 'const' and isinstance(x[1], int)
+
+
 def mk_eq(a, b):
     if a == b:
         return ('const', 1)
+    if _is_int_const(a) and _is_int_const(b):
+        return ('const', 0)
     for x, y in ((a, b), (b, a)):
         if x == ('null',) and isinstance(y, tuple) and y and y[0] in ('addr', 'new'):
             return ('const', 0)       # the address of an object / a fresh allocation is not null
@@ -325,6 +331,8 @@ class SymExec:
         self._pure = {}
         self._paths = {}
         self._search = {}
+        self.search_defects = {}    # function id -> (fn, text): a search helper recognised as skipping elements
+        self.value_hook = None      # optional: nf -> nf|None, fixes the value of selected expressions (bounded unrolling)
 
     # ------------------------------------------------------------------ places and versions
     def place_version(self, place, st):
@@ -543,11 +551,17 @@ class SymExec:
         if op == '-':
             if isinstance(b, tuple) and len(b) == 2 and b[0] == 'const' and isinstance(b[1], int):
                 return mk_comm('add', [a, ('const', -b[1])])     # x - k  ==  x + (-k)
+            if self.value_hook is not None:
+                h = self.value_hook(('sub', a, b))
+                if h is not None:
+                    return h
             return ('sub', a, b)
         if op in ('<', '>', '<=', '>='):
             if op in ('>', '<='):
                 a, b, ea, eb = b, a, eb, ea
             r = ('lt', a, b)
+            if _is_int_const(a) and _is_int_const(b):
+                r = ('const', 1 if a[1] < b[1] else 0)
             # 0 < n for unsigned n  ==  n != 0
             if a == ('const', 0) and eb is not None and self.ct(eb).startswith('unsigned'):
                 r = mk_not(mk_eq(('const', 0), b))
@@ -572,7 +586,7 @@ class SymExec:
             return not neg
         if c == ('const', 0):
             return neg
-        v = st.known.get(unver(c))
+        v = st.known.get(c)        # keyed with versions: the same test after a mutation of what it reads is a new test
         if v is None:
             return None
         return (not v) if neg else v
@@ -676,6 +690,10 @@ class SymExec:
             r = self.inline(callee, None, vals, st, depth)
             if r is not None:
                 return r
+        if self.value_hook is not None:
+            h = self.value_hook(('call', name, None) + tuple(unver(v) for v in vals))
+            if h is not None:
+                return h
         return ('call', name, None) + tuple(vals)
 
     def call_obj(self, e, obj, st, depth=0):
@@ -836,6 +854,8 @@ class SymExec:
         n = arg
         while n is not None:
             k = n.get('kind')
+            if k in ('CXXConstructExpr', 'CXXTemporaryObjectExpr'):
+                return True       # passed by value: the callee gets a copy (a moved-from local is handled where it is consumed)
             if k == 'ImplicitCastExpr':
                 if n.get('castKind') == 'LValueToRValue':
                     return True
@@ -923,7 +943,11 @@ class SymExec:
             place = self.place_of(ks[0], st)
             val = self.nf(ks[1], st)
             if k == 'CompoundAssignOperator':
-                val = ('binop', n.get('opcode'), self.nf(ks[0], st), val)
+                op_ = (n.get('opcode') or '')[:-1]
+                val = self.binop(op_, self.nf(ks[0], st), val) if op_ in ('+', '-', '*') else ('binop', n.get('opcode'), self.nf(ks[0], st), val)
+            lv_ = self.local_var_of(ks[0])
+            if lv_ is not None:
+                place = ('var', lv_)
             lhs = unver(self.nf(ks[0], st))
             sev = Event('store', n, nf=lhs, place=place, value=val, conds_n=nc)
             sev.depth = depth
@@ -957,6 +981,8 @@ class SymExec:
             follow = (has_body and not is_ctor and depth < self.MAX_INLINE_DEPTH and callee['id'] not in st.stack
                       and self.inline_stmt(callee))
             summ = self.search_summary(callee) if (follow and self.recognise_search) else None
+            if follow and callee['id'] in self.search_defects:
+                follow = False        # a search helper recognised as defective is reported once, as such; its call stays a named call
             if summ is not None:
                 vals = self.args_nf(sd, args, st, 0)
                 val = self.apply_search(summ, callee, vals)
@@ -1109,6 +1135,46 @@ class SymExec:
             return
         succ = blk.succ
         live = [(j, s) for j, s in enumerate(succ) if s is not None]
+        tn = self.tu.node(blk.term) if blk.term else None
+        if tn is not None and tn.get('kind') == 'SwitchStmt' and blk.cond:
+            c = self.nf(self.tu.node(blk.cond), st)
+            cases = []
+            default = None
+            for s_ in succ:
+                if s_ is None:
+                    continue
+                lb = self.tu.node(g.blocks[s_].label) if g.blocks[s_].label else None
+                if lb is not None and lb.get('kind') == 'CaseStmt':
+                    ks_ = self.tu.kids(lb)
+                    v_ = self.nf(ks_[0], st) if ks_ else None
+                    if not _is_int_const(v_):
+                        raise Unsupported('case label without constant value in %s' % fn['q'])
+                    cases.append((s_, v_))
+                elif lb is not None and lb.get('kind') == 'DefaultStmt':
+                    default = s_
+                else:
+                    default = s_ if default is None else default     # the edge taken when no case matches (no default label)
+            cu = unver(c)
+            if _is_int_const(cu):
+                hit = [s_ for s_, v_ in cases if v_ == cu]
+                tgt = hit[0] if hit else default
+                if tgt is not None:
+                    self._run(fn, g, tgt, 0, st, visited, depth, results, True)
+                return
+            for s_, v_ in cases:
+                s2 = st.clone()
+                e_ = mk_eq(c, v_)
+                s2.conds.append((e_, True, blk.cond))
+                s2.known[e_] = True
+                self._run(fn, g, s_, 0, s2, visited, depth, results, True)
+            if default is not None:
+                s2 = st.clone()
+                for s_, v_ in cases:
+                    e_ = mk_eq(c, v_)
+                    s2.conds.append((e_, False, blk.cond))
+                    s2.known[e_] = False
+                self._run(fn, g, default, 0, s2, visited, depth, results, True)
+            return
         if len(succ) > 2:
             raise Unsupported('multi-way branch in %s' % fn['q'])
         if len(succ) == 2 and blk.cond:
@@ -1123,7 +1189,7 @@ class SymExec:
                 if v is None:       # an already decided (or constant) condition adds nothing to the path
                     base, neg = (c[1], True) if (isinstance(c, tuple) and c and c[0] == 'not') else (c, False)
                     s2.conds.append((base, pol != neg, blk.cond))
-                    s2.known[unver(base)] = (pol != neg)
+                    s2.known[base] = (pol != neg)
                 self._run(fn, g, s, 0, s2, visited, depth, results, True)
         elif len(live) == 1:
             self._run(fn, g, live[0][1], 0, st, visited, depth, results, True)
@@ -1152,6 +1218,127 @@ class SymExec:
                 return None
         finally:
             self.inline_stmt, self.recognise_search, self._paths = saved
+        r_ = self._cursor_search(fn, ps)
+        if r_ is None:
+            r_ = self._counted_search(fn, ps)
+        self._search[fid] = r_
+        return r_
+
+    def _counted_search(self, fn, ps):
+        """hand-unrolled / counted linear search: a counter is set to distance(first, last), the cursor (first parameter) is only
+        incremented, every element is compared once in order, the first match returns the cursor and no match returns last.
+        Decided by running the function for every concrete element count N = 0 .. c + 2m + 1 (c the largest constant the counter is
+        compared with, m the largest step): the counter only occurs in comparisons with constants and is lowered by constants, so
+        for larger N the first loop iteration leads to exactly the state of the run with N - m."""
+        params = fn.get('params', [])
+        if len(params) < 3:
+            return None
+        P0 = ('param', 0, params[0].get('name') or '')
+        P1 = ('param', 1, params[1].get('name') or '')
+        dist = (('call', 'std::distance', None, P0, P1), ('sub', P1, P0))
+        counter = None
+        consts = [0]
+        for p in ps:
+            for ev in p.events:
+                if ev.kind in ('init', 'baseinit'):
+                    return None
+                if ev.kind == 'store':
+                    if not (ev.place is not None and ev.place[0] == 'var'):
+                        return None
+                    v = unver(ev.value)
+                    if not (isinstance(v, tuple) and v[0] == 'add' and any(d in v[1:] for d in dist) or v in dist):
+                        if not (isinstance(v, tuple) and v[0] == 'add'):
+                            return None
+                    if counter is not None and counter != ev.place:
+                        return None
+                    counter = ev.place
+                    consts += [abs(x[1]) for x in (v[1:] if isinstance(v, tuple) and v[0] == 'add' else ()) if _is_int_const(x)]
+                if ev.kind == 'mutate':
+                    if ev.place is None or ev.place[0] != 'var':
+                        return None
+            for c, pol, _ in p.conds:
+                cu = unver(c)
+                if any(contains(cu, d) for d in dist):
+                    # the counter may only be compared with constants
+                    if not (isinstance(cu, tuple) and cu[0] in ('lt', 'eq') and any(_is_int_const(x) or (isinstance(x, tuple) and x[0] == 'add'
+                            and all(_is_int_const(y) or y in dist for y in x[1:])) or x in dist for x in cu[1:])):
+                        return None
+                    consts += [abs(y[1]) for x in cu[1:] for y in ((x,) if _is_int_const(x) else x[1:] if isinstance(x, tuple) and x[0] == 'add' else ())
+                               if _is_int_const(y)]
+        if not any(any(contains(unver(c), d) for d in dist) for p in ps for c, pol, _ in p.conds):
+            return None
+        cmax = max(consts)
+        if cmax > 64:
+            return None
+        body = None
+        defect = None
+        saved = (self.inline_stmt, self.recognise_search, self._paths, self.value_hook)
+        try:
+            for N in range(0, 3 * cmax + 2):
+                self.inline_stmt, self.recognise_search, self._paths = (lambda f: False), False, {}
+                self.value_hook = lambda nf, N=N: ('const', N) if nf in dist else None
+                try:
+                    runs = self.paths(fn)
+                except Unsupported:
+                    return None
+                for p in runs:
+                    incs = [ev for ev in p.events if ev.kind == 'mutate' and ev.how in ('++', 'operator++')]
+                    if any(ev.kind == 'mutate' and ev not in incs for ev in p.events):
+                        return None
+                    curs = {ev.place for ev in incs}
+                    if len(curs) > 1:
+                        return None
+                    cursor = curs.pop() if curs else None
+                    positions = []        # element index (number of increments so far) of every comparison, in order
+                    matched = None
+                    for k, (c, pol, _) in enumerate(p.conds):
+                        cu = unver(c)
+                        before = len([e for e in incs if e.conds_n <= k])
+                        cur = P0 if before == 0 else cursor
+                        elem = ('deref', cur)
+                        if not contains(cu, elem) or matched is not None:
+                            return None
+                        b = self._subst(cu, {elem: ('lparam', 0)})
+                        if contains(b, P0) or (cursor is not None and contains(b, cursor)):
+                            return None
+                        if body is None:
+                            body = b
+                        elif body != b:
+                            return None
+                        positions.append(before)
+                        if pol:
+                            matched = before
+                    if p.term[0] != 'return' or p.term[1] is None:
+                        return None
+                    rv = unver(p.term[1])
+                    if matched is not None:
+                        # a match returns the cursor standing on the matching element
+                        if rv != (P0 if matched == 0 else cursor) or len(incs) != matched:
+                            return None
+                        if positions != list(range(matched + 1)) and defect is None:
+                            defect = (N, positions, 'match')
+                    else:
+                        ends_at_last = rv == P1 or (rv == (P0 if not incs else cursor) and len(incs) == N)
+                        if not ends_at_last:
+                            return None
+                        if positions != list(range(N)) and defect is None:
+                            defect = (N, positions, 'nomatch')
+        finally:
+            self.inline_stmt, self.recognise_search, self._paths, self.value_hook = saved
+        if body is None or not (isinstance(body, tuple) and body[0] == 'eq'):
+            return None
+        if defect is not None:
+            N_, pos_, how_ = defect
+            missing = [i for i in range(N_) if i not in pos_]
+            beyond = [i for i in pos_ if i >= N_]
+            self.search_defects[fn['id']] = (fn, 'with %d element(s) to search it compares the elements at positions %s%s: %s' % (
+                N_, pos_ if pos_ else 'none', ' and then reports "not found"' if how_ == 'nomatch' else ' before it reports a match',
+                '; '.join(x for x in ('position(s) %s are never looked at' % missing if missing else '',
+                                      'position(s) %s lie outside the range' % beyond if beyond else '') if x) or 'not each position once, in order'))
+            return None
+        return (P0, P1, body)
+
+    def _cursor_search(self, fn, ps):
         cursor = None
         for p in ps:
             for ev in p.events:
@@ -1228,8 +1415,7 @@ class SymExec:
             return None
         if not (isinstance(body, tuple) and body[0] == 'eq'):
             return None
-        self._search[fid] = (c0, last_nf, body)
-        return self._search[fid]
+        return (c0, last_nf, body)
 
     def apply_search(self, summ, fn, vals):
         c0, last_nf, body = summ
